@@ -161,6 +161,40 @@ def capture_twins(rep, repo, mod):
     rep.ob('C06.capture', 'cpu: s_sqrt2 = sd * sqrt(2) (gpu receives it from the call site)', ok)
     if not ok:
         rep.violate('C06.capture', mod, f, 's_sqrt2', 'wave_capture_cpu must compute s_sqrt2 = sd * math.sqrt(2), the value the GPU call site passes', node=f)
+    # the scale the gpu kernel tests and divides by must be the caller's sd times sqrt(2) exactly once, counted over the call site and the kernel
+    def sqrt2_split(e):
+        """(base expression, number of math.sqrt(2) factors) of a product"""
+        if isinstance(e, ast.BinOp) and isinstance(e.op, ast.Mult):
+            for a, b in ((e.left, e.right), (e.right, e.left)):
+                if cz(b) == 'math.sqrt(2)':
+                    base, k = sqrt2_split(a)
+                    return base, k + 1
+        return e, 0
+    gparams = [a.arg for a in g.args.args]
+    scale = None
+    if pg and isinstance(pg[0].test, ast.Compare) and isinstance(pg[0].test.left, ast.Name):
+        scale = pg[0].test.left.id
+    k_kernel, src_param = 0, scale
+    if scale is not None and scale not in gparams:
+        defs = [st for st in body_no_doc(g) if isinstance(st, ast.Assign) and len(st.targets) == 1 and is_name(st.targets[0], scale)]
+        if len(defs) == 1:
+            base, k_kernel = sqrt2_split(defs[0].value)
+            src_param = base.id if isinstance(base, ast.Name) else None
+        else:
+            src_param = None
+    elif scale is not None and any(isinstance(st, (ast.Assign, ast.AugAssign)) and any(is_name(t, scale) for t in (st.targets if isinstance(st, ast.Assign) else [st.target]))
+                                   for st in ast.walk(g)):
+        src_param = None
+    cu = mod.func('WaveSimCuda.c_to_s')
+    calls = [c for c in find_all(cu, ast.Call) if isinstance(c.func, ast.Subscript) and is_name(c.func.value, 'wave_capture_gpu')]
+    ok = False
+    if src_param in gparams and len(calls) == 1 and gparams.index(src_param) < len(calls[0].args):
+        base, k_call = sqrt2_split(calls[0].args[gparams.index(src_param)])
+        ok = cz(base) == 'sd' and k_call + k_kernel == 1
+    rep.ob('C06.capture', 'gpu: the sampling scale is the caller\'s sd times sqrt(2) exactly once (call site + kernel)', ok)
+    if not ok:
+        rep.violate('C06.capture', mod, g, scale or 's_sqrt2', 'the scale the gpu capture kernel compares with 0 and divides by must be sd * sqrt(2) - the cpu kernel\'s value: '
+                    'the factor sqrt(2) must be applied exactly once between WaveSimCuda.c_to_s and the kernel', node=calls[0] if calls else g)
 
 
 def state_transfer(rep, repo, mod):
@@ -647,6 +681,9 @@ def depends(rep, repo):
     c07.schedule_rules(rep, repo)
     c08.map_rules(rep, repo)
     c07.launches(rep, repo)        # level launches and the pure-Python grid launcher standing in for CUDA (C07.launch)
+    # with and without stripped forks the same overflow indicator must reach a port: the terminator propagation of _wave_eval (C13.overflow)
+    from checks import c13
+    c13.overflow(rep, repo)
 
 
 def thorough(rep, repo):
